@@ -379,6 +379,14 @@ func genAsmText(tp *simrt.Tape, cfg gp.SimulatorConfig, mix asmMix) textCase {
 	default:
 		tc = genCorpus(tp)
 	}
+	if tp.Draw("gen.prefix", 24) == 0 {
+		// byte-order marks and other leading junk that a reader might want to
+		// peel off before lexing
+		pre := []string{"\xef\xbb\xbf", "\xff\xfe", "\xfe\xff", "\xef\xbb", "\x1a", "\x00", "#!", "\r\n"}[tp.Draw("gen.prefix.kind", 8)]
+		tc.Text = append([]byte(pre), tc.Text...)
+		tc.Notes = append(tc.Notes, "leading-bom-or-junk")
+		tc.Pristine = false
+	}
 	return tc
 }
 
